@@ -223,7 +223,9 @@ def explore(prop, pid, batches, seconds, seed, nproc=None):
             ml = mut.mutate(l, donors)
             if ml is None or sum(len(x) for x in ml) > 600000: continue
             nmut += 1
-            items.append(('%s__x%d' % (n.split('__x')[0][:40], nmut), ml, m))
+            base = n.split('__x')[0]; suf = ''
+            if '~' in n: suf = n[n.index('~'):]; base = base.split('~')[0]       # families are recognised by prefix and by a ~suffix: keep both
+            items.append(('%s__x%d%s' % (base[:40], nmut, suf), ml, m))
         if not items: break
         edges, consts, crashed = write_run(items, gen)
         mut.dict |= consts
